@@ -246,6 +246,9 @@ class Interp:
         cur = self.ev(load, fr)
         rhs = self.ev(st.value, fr)
         new = self.binop(st.op, cur, rhs, st)
+        if isinstance(cur, SArr) and cur.shape is None and isinstance(st.target, ast.Name):
+            # NumPy in-place operator: the array object itself is updated (every alias sees it)
+            return self.models.inplace_update(self, cur, new)
         self.assign_target(st.target, new, fr)
 
     @staticmethod
